@@ -83,6 +83,10 @@ func (cx *Ctx) runOp(rule string, spec opSpec) *opRun {
 		// the thorough tier as well
 		ps.loopBound = 1
 	}
+	if spec.kind == "setExp" || spec.kind == "setRefr" {
+		// the decision to leave a deadline as it is must be a function of that deadline: record such comparisons
+		ps.alsoRelevant = []string{"ExpiresAt(", "RefreshableAt(", "param:expiresAfter", "param:refreshableAfter"}
+	}
 	if spec.kind == "moves" {
 		// the transfer loops may live in helpers split off the climbing functions: inline them together with their loops
 		for _, f := range cx.P.FuncsOfPkg("") {
